@@ -294,6 +294,53 @@ def build_cfg(case, lst, bu):
             if items:
                 block_at[(si, items[0].pos)] = bu.blocks[t.bid]
                 last_instr_of[(si, items[-1].pos)] = bu.blocks[t.bid]
+    # zero-sized code blocks (as earlier rewrites leave them): a chain of them
+    # in front of a position takes the fallthrough / return edges that arrive
+    # there from the physically preceding code, each falls through to the
+    # next, and an edge by label goes to the block carrying the label
+    empty_chain = {}      # (si, pos) -> [blocks] in listing order
+    empty_of_label = {}
+    follows_code = {}     # first empty block of a chain -> True when code
+                          # stands right in front of it in its interval
+    for si, ivs in enumerate(lst.secs):
+        for toks in ivs:
+            prev_code = False
+            for k, t in enumerate(toks):
+                if t.t == "B" and lst.block_info[t.bid]["code"] and \
+                        not lst.block_info[t.bid]["blk"]["items"]:
+                    blk = bu.blocks[t.bid]
+                    for nme in lst.block_info[t.bid]["blk"]["labels"] + \
+                            lst.block_info[t.bid]["blk"]["elabels"]:
+                        empty_of_label[nme] = blk
+                    # position: that of the next byte-carrying token, or the
+                    # interval's end
+                    nxt = next((x for x in toks[k + 1:] if x.t in "ID"),
+                               None)
+                    key = (si, nxt.pos if nxt is not None else None,
+                           id(toks))
+                    chain = empty_chain.setdefault(key, [])
+                    if not chain:
+                        follows_code[id(blk)] = prev_code
+                    chain.append(blk)
+                    if nxt is not None and nxt.t == "I":
+                        chain_next = block_at.get((si, nxt.pos))
+                    else:
+                        chain_next = None
+                    empty_chain[key + ("next",)] = chain_next
+                elif t.t in "ID":
+                    prev_code = t.t == "I" and not t.uncovered
+    first_empty_at = {}
+    for key, chain in empty_chain.items():
+        if len(key) == 4:
+            continue
+        nxt_blk = empty_chain[key + ("next",)]
+        for a, b in zip(chain, chain[1:] + [nxt_blk]):
+            if b is not None:
+                ir.cfg.add(gtirb.Edge(source=a, target=b, label=gtirb.Edge.
+                                      Label(type=gtirb.Edge.Type.Fallthrough)))
+        if key[1] is not None and follows_code[id(chain[0])]:
+            first_empty_at[(key[0], key[1])] = chain[0]
+    edge_label = expected_edges.edge_label
     anon = {}
     for (si, pos, et, cond, direct, tgt) in sorted(edges, key=repr):
         src = last_instr_of.get((si, pos))
@@ -304,6 +351,11 @@ def build_cfg(case, lst, bu):
             continue
         if tgt[0] == "pos":
             dst = block_at.get((tgt[1], tgt[2]))
+            if et in ("ft", "return") and \
+                    (tgt[1], tgt[2]) in first_empty_at:
+                dst = first_empty_at[(tgt[1], tgt[2])]
+            elif edge_label.get((si, pos, et)) in empty_of_label:
+                dst = empty_of_label[edge_label[(si, pos, et)]]
             if dst is None:
                 # label in front of data or at section end: the generator
                 # does not produce such targets
